@@ -504,7 +504,75 @@ def run_switching(part):
     part.sample({'switching_order': [list(v) for v in SWITCH_ORDER]})
 
 
+# argument variants with NON-default values (masks outside Encrypt/Decrypt, policy names, names on both
+# halves of a pair, locate filters): same expectations as their base operation
+OPS.update({
+    'create_mac': (lambda c, i: c.create(E.CryptographicAlgorithm.AES, 128, operation_policy_name='default',
+                                          cryptographic_usage_mask=[CUM.MAC_GENERATE, CUM.MAC_VERIFY]),
+                   OPS['create'][1], OPS['create'][2]),
+    'create_wrap': (lambda c, i: c.create(E.CryptographicAlgorithm.AES, 192, name='w',
+                                           cryptographic_usage_mask=[CUM.WRAP_KEY, CUM.UNWRAP_KEY]),
+                    OPS['create'][1], OPS['create'][2]),
+    'create_key_pair_named': (lambda c, i: c.create_key_pair(
+        E.CryptographicAlgorithm.RSA, 1024, operation_policy_name='default', public_name='pub',
+        public_usage_mask=[CUM.VERIFY, CUM.ENCRYPT], private_name='priv',
+        private_usage_mask=[CUM.SIGN, CUM.DECRYPT]), OPS['create_key_pair'][1], OPS['create_key_pair'][2]),
+    'locate_named': (lambda c, i: c.locate(attributes=[W.attr(W.AT.NAME, 'k')]),
+                     OPS['locate'][1], OPS['locate'][2]),
+    'locate_max': (lambda c, i: c.locate(maximum_items=2), OPS['locate'][1], OPS['locate'][2]),
+})
+
+
+def run_sequences(part):
+    """One long-lived client runs the whole operation table (forward, then backward); the server
+    state is reset before every call, only the CLIENT object persists. Every request it emits and
+    every outcome it reports must equal those of a fresh client making the same call: what a call
+    sends may not depend on the calls made before."""
+    table = dict(OPS, **OPS20)
+    w0, ids = base()
+    for version in ((1, 2), (1, 4), (2, 0)):
+        names = [n for n in table if not (n in OPS20 and version != (2, 0))]
+        used = make_client(version, Transport(lambda f: b''))
+        done = []
+        for opname in names + list(reversed(names)):
+            frames, outs = [], []
+            for client in (used, None):
+                w = w0.clone()
+                try:
+                    W.CLOCK.now = W.T0 + 7
+                    W.ENTROPY.constant = True
+                    log = []
+                    tr = Transport(real_responder(w, log))
+                    outs.append(call(opname, version, tr, ids, client))
+                    frames.append([f for f, _ in log])
+                finally:
+                    w.close()
+            part.count('exchanges')
+            part.count('sequence_calls')
+            part.counters.setdefault('_out', set()).add((opname, 'sequence', outs[0].kind))
+            ctx = {'op': opname, 'version': list(version), 'sequence_before': list(done)[-8:], 'sequence': True}
+            if frames[0] != frames[1]:
+                part.violation("request-depends-on-history|%s" % opname,
+                               "%s under KMIP %d.%d: after %d earlier calls on the same client the request is "
+                               "%s..., a fresh client sends %s..." % (
+                                   opname, version[0], version[1], len(done),
+                                   (frames[0][-1].hex() if frames[0] else 'nothing')[:90],
+                                   (frames[1][-1].hex() if frames[1] else 'nothing')[:90]), ctx)
+            elif (outs[0].kind, repr(outs[0].value)) != (outs[1].kind, repr(outs[1].value)):
+                part.violation("outcome-depends-on-history|%s" % opname,
+                               "%s under KMIP %d.%d: used client reports %r, fresh client %r" % (
+                                   opname, version[0], version[1], outs[0], outs[1]), ctx)
+            done.append(opname)
+    part.sample({'sequence_versions': [[1, 2], [1, 4], [2, 0]], 'operations': len(table)})
+
+
 def _worker(task):
+    if task == 'sequences':
+        part = Part()
+        run_sequences(part)
+        out = part.as_dict()
+        out['out'] = sorted(part.counters.pop('_out', set()), key=repr)
+        return out
     if task == 'switching':
         part = Part()
         run_switching(part)
@@ -534,6 +602,7 @@ def run(tier, seed):
         tasks.append((n, W.VERSIONS, False))                       # (a) all versions
         tasks.append((n, W.VERSIONS, True))   # (b) scripted: every supported version
     tasks.append('switching')
+    tasks.append('sequences')
     outs = set()
     for part in pmap(_worker, tasks):
         outs.update(repr(o) for o in part.pop('out', []))
@@ -564,6 +633,10 @@ def run(tier, seed):
 def replay(doc):
     part = Part()
     v = tuple(doc['version'])
+    if doc.get('sequence'):
+        run_sequences(part)
+        vio = [x for x in part.violations if x[2].get('op') == doc['op']]
+        return bool(vio), '\n'.join("%s: %s" % (k, t) for k, t, _ in vio[:20]) or 'no violation'
     if doc.get('switched_client') is not None:
         run_switching(part)
         vio = [x for x in part.violations if x[2].get('op') == doc['op']]
